@@ -928,6 +928,12 @@ impl MmapXenSlice {
     }
 
     fn new_with(grant: MmapXenGrant, offset: usize, prot: i32, size: usize) -> Result<Self> {
+        // An empty range touches no memory, and neither the grant ioctl nor `mmap` accept a
+        // zero length: hand out a dangling (never dereferenced) pointer without mapping anything.
+        if size == 0 {
+            return Ok(Self::raw(std::ptr::NonNull::dangling().as_ptr()));
+        }
+
         let page_size = page_size() as usize;
         let page_base: usize = (offset / page_size) * page_size;
         let offset = offset - page_base;
